@@ -520,4 +520,11 @@ def pinned_traces(tier):
             evs.append({"op": "checkpoint", "sink": "seekable"})
         evs.append({"op": "restart"})
         out.append({"property": ID, "seed": "many-control-characters-%s" % tgt, "tier": "pinned", "config": {"pinned": True}, "start": [{"deck": "default"}], "events": evs})
+    # a save that fails LATE in the archive (after the edited parts were serialised), then more edits, then a save that succeeds
+    for tgt in ("sp", "cell", "notes"):
+        evs = list(base) + [{"op": "c04.assign", "slide": 0, "shape": 0, "target": tgt, "level": "frame", "para": 0, "run": 0, "r": 0, "c": 0, "text": "before the failed save"}]
+        evs += [{"op": "checkpoint", "sink": "seekable"}] + [{"op": "checkpoint", "sink": "seekable", "fault": {"kind": k_, "at": 50, "at_frac": f_, "sticky": False}} for k_, f_ in (("enospc", 0.97), ("eio", 0.995), ("enospc", 0.6))]
+        evs += [{"op": "c04.assign", "slide": 0, "shape": 0, "target": tgt, "level": "frame", "para": 0, "run": 0, "r": 0, "c": 0, "text": "after the failed save\nsecond"},
+                {"op": "checkpoint", "sink": "seekable"}, {"op": "restart"}]
+        out.append({"property": ID, "seed": "late-failed-save-then-edit-%s" % tgt, "tier": "pinned", "config": {"pinned": True}, "start": [{"deck": "default"}], "events": evs})
     return out
